@@ -330,27 +330,45 @@ def run(res, f, tier):
     # ---- names: the printer writes identifiers, function names, symbol names, field steps and map keys bare, so every
     # string the parser can put into such a slot must be an IDENT lexeme (taken from an IDENT terminal unchanged)
     g_all, P_all = extracted_grammar(f)
-    nts_all = set(l for l, _, _ in P_all)
+    P_all = reachable(P_all, ["Expr"])
+    # helper nonterminals (IndexStep, MapKey, KeyValue ...) are inlined first, so that the slot and its source are in
+    # one production whatever the grammar's factoring
+    P_inl = cfg.inline_nonrecursive(P_all, keep={"Expr"})
 
-    def ident_only(sym, seen=()):
-        if sym == "IDENT":
-            return True
-        if sym not in nts_all or sym in seen:
-            return False
-        prods = [(r, t) for l, r, t in P_all if l == sym]
-        return bool(prods) and all(len(r) == 1 and t == "$0" and ident_only(r[0], seen + (sym,)) for r, t in prods)
+    def first_arg(t, start):
+        depth = 0
+        for k_ in range(start, len(t)):
+            ch = t[k_]
+            if ch in "([":
+                depth += 1
+            elif ch in ")]":
+                if depth == 0:
+                    return t[start:k_]
+                depth -= 1
+            elif ch == "," and depth == 0:
+                return t[start:k_]
+        return t[start:]
 
-    SLOT = re.compile(r"\b(Reference|Symbol|Function)\(\$(\d+)|\bIndex\([^()]*(?:\([^()]*\))?[^()]*,\s*Map\(\$(\d+)\)|\btuple\(\$(\d+),")
     slots = 0
-    for l, r, t in P_all:
-        if l in ("MetaItem", "Rule") or l.startswith("(<MetaItem"):
-            continue     # rule metadata keys are not part of an expression's rendering
-        for m_ in SLOT.finditer(t):
-            pos = next(int(x) for x in m_.groups()[1:] if x is not None)
+    for l, r, t in P_inl:
+        found = []
+        for m_ in re.finditer(r"\b(Reference|Symbol|Function)\(", t):
+            found.append((m_.group(1), first_arg(t, m_.end())))
+        for m_ in re.finditer(r"\btuple\(", t):
+            found.append(("map key", first_arg(t, m_.end())))
+        for m_ in re.finditer(r"\bIndex\(", t):
+            a0 = first_arg(t, m_.end())
+            rest = t[m_.end() + len(a0) + 1:].lstrip()
+            if rest.startswith("Map("):
+                found.append(("field step", first_arg(rest, 4)))
+        for slot, arg in found:
+            arg = arg.strip()
             slots += 1
-            src = r[pos] if pos < len(r) else "?"
-            ob(ident_only(src), "C16|name-slot|%s|%s" % (l, (m_.group(1) or ("Index.Map" if "Map($" in m_.group(0) else "map key"))),
-               "in production %s -> %s the name comes from %s, which is not an identifier token taken unchanged, but names are printed bare: %s" % (l, " ".join(r), src, t))
+            mm = re.fullmatch(r"\(?\$(\d+)\)?", arg)
+            src = r[int(mm.group(1))] if mm and int(mm.group(1)) < len(r) else None
+            ob(src == "IDENT", "C16|name-slot|%s|%s" % (l, slot),
+               "in production %s -> %s the %s is %s%s, which is not an identifier token taken unchanged, but names are printed bare: %s"
+               % (l, " ".join(r), slot, arg, " (%s)" % src if src else "", t))
     res.floor("name slots of the grammar (reference, symbol, function, field step, map key)", slots, 5)
     # ---- token boundaries
     LITERAL_LAST = {"String": "STRING", "Int": "INT", "Float": "FLOAT", "Decimal": "DECIMAL", "Bool": "TRUE", "None": "KWD_NONE"}
